@@ -36,6 +36,9 @@
 
 #include "value.hh"
 #include "selector.hh"
+#ifdef DWGREP_VERIF
+# include "verif-hooks.hh"
+#endif
 
 enum var_id: unsigned {};
 
@@ -45,6 +48,25 @@ class stack
 {
   std::vector <std::unique_ptr <value>> m_values;
   selector::sel_t m_profile;
+
+#ifdef DWGREP_VERIF
+  // The cached type profile has to equal the one recomputed from the slots.
+  void
+  verif_check_profile (char const *where, bool after_drop = false) const
+  {
+    selector::sel_t prof = 0;
+    for (unsigned d = 0; d < selector::W && d < m_values.size (); ++d)
+      prof |= ((selector::sel_t) (*(m_values.rbegin () + d))->get_type ()
+			.code ()) << (d * 8);
+    auto &st = dwgrep_verif::get_stats ();
+    ++st.stack_checks[m_values.size () < 7 ? m_values.size () : 7];
+    if (after_drop)
+      ++st.stack_checks_after_drop;
+    if (prof != m_profile)
+      dwgrep_verif::fail ("stack", "cached profile differs from slots", where,
+			  m_profile, prof);
+  }
+#endif
 
 public:
   typedef std::unique_ptr <stack> uptr;
@@ -74,6 +96,9 @@ public:
     m_profile <<= 8;
     m_profile |= vp->get_type ().code ();
     m_values.push_back (std::move (vp));
+#ifdef DWGREP_VERIF
+    verif_check_profile ("push");
+#endif
   }
 
   void
@@ -95,6 +120,9 @@ public:
 	auto code = get (selector::W - 1).get_type ().code ();
 	m_profile |= ((selector::sel_t) code) << (8 * (selector::W - 1));
       }
+#ifdef DWGREP_VERIF
+    verif_check_profile ("pop");
+#endif
     return ret;
   }
 
@@ -109,6 +137,9 @@ public:
 	auto code = get (d).get_type ().code ();
 	m_profile |= code << (d * 8);
       }
+#ifdef DWGREP_VERIF
+    verif_check_profile ("drop", true);
+#endif
   }
 
   template <class T>
